@@ -13,7 +13,7 @@ from ..world import World, inventory
 
 ID = "C07"
 LEVEL = "exploration"
-BUDGET = {"quick": {"n": 400, "wall_s": 400}, "thorough": {"n": 10000, "wall_s": 3300}}
+BUDGET = {"quick": {"n": 600, "wall_s": 400}, "thorough": {"n": 10000, "wall_s": 3300}}
 RULE = ("per case either (a) `group` with a transform drawn from {stdin->stdout, $IN, $IN+$OUT, $OUT, --in-place, "
         "--no-copy, --in-place --no-copy} x programs that read / ignore (true) / fail (false, missing program) on their "
         "input, optionally --cache and -o FILE, or plain group with --cache/-o; or (b) one of the 5 dedupe operations "
